@@ -46,6 +46,21 @@ CLAIMED = {
          "All well-formed spec trees over all spec kinds (attr, literal, block, blocklist/tuple/set, blockmap/object with 1..2 labels, blockattrs, label, default, object, tuple, transform, validate, refine) x conforming and perturbed bodies (missing required, extraneous items, wrong literal types, wrong label counts, zero/one/many blocks, nested blocks).",
          "Documented preconditions respected (see DESIGN); results needing unification of differing element types are oom in the model (type relation still checked on the real output).",
          "DESIGN.md §4 C08"),
+ "C09": ("spec/HclExpr.tla (MC_E1) + spec/HclStruct.tla (MC_C02)",
+         "TLC-enumerated expressions (rendered in every layout incl. a space between every pair of tokens) and TLC-enumerated file layouts are formatted by hclwrite.Format; token sequence, parse result, attribute values and idempotence are compared on the real outputs",
+         "Quick: every MC_E1 AST of depth 1 in 5 layouts x 2 embeddings + every MC_C02 file (2 items, 1 layout deviation); thorough: depth 2 and 2 deviations. Relation: lex(Format(src)) == lex(src) as (type, bytes) sequences, Format(src) parses error-free with identical attribute values, Format(Format(src)) == Format(src).",
+         "Heredoc templates are not generated yet; a dedicated HclFormat.tla (spacing table / glue relation) is planned, today the generators are the expression and structure machines.",
+         "DESIGN.md §4 C09"),
+ "C10": ("spec/HclExpr.tla (MC_E1) + spec/HclStruct.tla (MC_C02)",
+         "same TLC-enumerated sources as C09 loaded with hclwrite.ParseConfig and saved; token sequence, equality with Format, and tree accessors (attributes, blocks, labels, variable references) compared with hclsyntax's view of the source",
+         "Every traversal shape of the E1 generator (attribute, string/number/bool/null index keys, legacy index, splat) in every expression position and layout; comments before, inside and after items from the structure machine.",
+         "Expression token comparison skipped where string templates or comments make spacing significant.",
+         "DESIGN.md §4 C10"),
+ "C11": ("spec/HclLexStr.tla (MC_C11)",
+         "TLC enumerates abstract values (strings as character-class sequences) and checks the escape law Unescape(Escape(s)) = s on the spec; each value is instantiated with seeded concrete representatives and round-tripped through TokensForValue, SetAttributeValue, block labels and TokensForTraversal",
+         "All strings of <= 3 (quick) / 4 (thorough) classes over 16 character classes, 12 numbers incl. 30-digit and extreme exponents, bools, typed nulls, keywords and non-identifier words, nested in tuple/list/set/map/object (depth 1/2) with key strings incl. for/in/if/null/true; generated text must parse and read back RawEquals after conversion to the original type; labels and traversal steps read back exactly.",
+         "A character class has 1-6 concrete representatives (seeded choice); numbers come from a fixed list.",
+         "DESIGN.md §4 C11"),
  "C12": ("spec/HclWriteTree.tla",
          "TLC exhaustive enumeration of writer-API edit histories (HclWriteTree.tla), each history replayed into hclwrite and compared with the model's predicted file",
          "Every history of <= 3 (quick) / <= 4 (thorough) writer calls from an empty and a parsed-with-comments file is enumerated by TLC; the model's invariants (unique attribute names, forest, untouched items keep tokens) are checked on the spec, and every enumerated history is executed against hclwrite: no panic, serialised bytes parse, re-parsed structure equals the model, read accessors (through the root and through retained handles) equal the model, untouched original items keep their comment/token lines.",
@@ -103,9 +118,10 @@ def main():
         "engines": [
             {"name": "HclWriteTree", "path": "spec/HclWriteTree.tla", "serves_properties": ["C12"], "kind_free_text": "TLA+ edit-history machine of the hclwrite tree; TLC state dump streamed to a Go replayer"},
             {"name": "HclDec", "path": "spec/HclDec.tla", "serves_properties": ["C03", "C08", "C18"], "kind_free_text": "TLA+ model of hcldec spec kinds: ImpliedType, implied schema, Decode, JSON expressibility; generator MC_Dec; replayers harness/dec, c03, c08"},
-            {"name": "HclStruct", "path": "spec/HclStruct.tla", "serves_properties": ["C02"], "kind_free_text": "TLA+ layout machine writing native-syntax files with their abstract tree; TLC dump replayed into hclsyntax.ParseConfig"},
+            {"name": "HclLexStr", "path": "spec/HclLexStr.tla", "serves_properties": ["C11"], "kind_free_text": "TLA+ model of quoted string literals over character classes (Escape/Unescape law) with value generator MC_C11"},
+            {"name": "HclStruct", "path": "spec/HclStruct.tla", "serves_properties": ["C02", "C09", "C10"], "kind_free_text": "TLA+ layout machine writing native-syntax files with their abstract tree; TLC dump replayed into hclsyntax.ParseConfig"},
             {"name": "HclBody", "path": "spec/HclBody.tla", "serves_properties": ["C04"], "kind_free_text": "TLA+ machine of schema-driven body processing (PartialContent/Content with hidden sets); TLC dump replayed on four hcl.Body implementations"},
-            {"name": "E1 HclValues+HclExpr+MC_E1", "path": "spec/HclExpr.tla", "serves_properties": ["C01", "C05", "C06", "C07", "C19", "C20"], "kind_free_text": "TLA+ denotational semantics of the expression/template language with a production-per-action AST generator; TLC dump streamed to Go replayers (harness/e1, c01, c05, c06, c07, c19)"},
+            {"name": "E1 HclValues+HclExpr+MC_E1", "path": "spec/HclExpr.tla", "serves_properties": ["C01", "C05", "C06", "C07", "C09", "C10", "C19", "C20"], "kind_free_text": "TLA+ denotational semantics of the expression/template language with a production-per-action AST generator; TLC dump streamed to Go replayers (harness/e1, c01, c05, c06, c07, c19)"},
         ],
         "checks": checks,
         "not_applicable": na,
